@@ -286,6 +286,8 @@ OutOf(d, sub, sp, b, nm, form) ==
   LET cfg == CfgOf(d) bx == LexBoxes(sub, sp) F == Facts(cfg, bx) o == OutcomeF(F) IN
   o @@ [must |-> MustRejectF(F), broken |-> Broken(d, cfg, bx, F, o, b, nm, form)]
 
+MixCalls == {"none", "cos", "sin", "f"}
+MixTerm(g) == IF g = "none" THEN <<>> ELSE <<"pl", g, "lp", "n0", "rp", "ti", "n0">>
 Init == c \in {[kind |-> "seed", d |-> d] : d \in Dims} /\ out = [why |-> "seed", broken |-> {}]
 Next == /\ c.kind = "seed"
         /\ \/ \E b \in Bases(c.d), nr \in NR, form \in Forms, pos \in Positions, sp \in Spacings(c.d) :
@@ -295,6 +297,14 @@ Next == /\ c.kind = "seed"
            \/ \E b \in Bases(c.d), sp \in Spacings(c.d) :
                 /\ c' = MkCase(c.d, b, "none", "none", "none", "none", sp, Control(b))
                 /\ out' = OutOf(c.d, Control(b), sp, b, "none", "none")
+           \* summations: each of the three places (lower limit, upper limit, summand) independently carries nothing or a
+           \* neutral call g(0)*0 of cos / sin / the user function f -- permitted or restricted according to the
+           \* configuration; the submission is refused as soon as ANY place carries a restricted call
+           \/ /\ Part = "sum"
+              /\ \E lo \in MixCalls, hi \in MixCalls, sm \in MixCalls :
+                   LET sub == <<<<"n1">> \o MixTerm(lo), <<"n3">> \o MixTerm(hi), Cor1 \o MixTerm(sm)>> IN
+                   /\ c' = MkCase(c.d, "C1", "mix", lo, hi, sm, "tight", sub)
+                   /\ out' = OutOf(c.d, sub, "tight", "C1", "mix", hi)
 IsCase == c.kind # "seed"
 
 LawMust == "Must" \notin out.broken            \* MustReject => only student-facing refusals allowed, never a grade
